@@ -72,8 +72,11 @@ Inductive act :=
 | ALose (i : nat)                              (* ... or never does *)
 | ARevoke (k : key) (others : bool)            (* SharedPollRevokeKeys matching the connection *)
 | AEpochFlip                                   (* publisher epoch change *)
-| APollNone (i : nat).                         (* request i ends without an item for its key: the call failed, or the
+| APollNone (i : nat)                          (* request i ends without an item for its key: the call failed, or the
                                                   backend has nothing newer than the version in the request *)
+| ATrackV (k : key) (cv : ver).                (* (re-)track with a version the client obtained elsewhere (ahead of, equal
+                                                  to or behind what this node delivered); what it holds as delta base
+                                                  is still only what this node delivered *)
 
 Fixpoint remove_nth {A : Type} (i : nat) (l : list A) : list A :=
   match i, l with
@@ -125,16 +128,11 @@ Section Step.
            [p])
     end.
 
-  Definition step (s : st) (a : act) : st * list push :=
-    match a with
-    | ASubscribe =>
-        if s_sub s then (s, [])
-        else (mkSt (s_ent s) (s_polls s) (s_bc s) (fun _ => None) true (fun _ => None) [], [])
-    | ATrack k fresh =>
+  (* track of key k by a client that sends version [cv]; [held0]: what the client holds for the key
+     (its delta base) when it sends the request *)
+  Definition track_with (s : st) (k : key) (cv : ver) (held0 : option ver) : st * list push :=
         if negb (s_sub s) then (s, [])
         else
-          let cv := if fresh then 0 else match s_held s k with Some h => h | None => 0 end in
-          let held0 := if fresh then None else s_held s k in
           let is_new := match s_ent s k with Some _ => false | None => true end in
           let ent := match s_ent s k with Some e => e | None => mkEnt 0 false false end in
           (* cached item in the reply / warm direct delivery: both are full payloads of entry.version *)
@@ -149,7 +147,17 @@ Section Step.
             let ent' := if warm then mkEnt (e_ver ent) (e_data ent) true else ent in
             (mkSt (upd (s_ent s) k (Some ent')) (s_polls s) (s_bc s)
                   (upd (s_conn s) k (Some (mkKs cv false))) true (upd (s_held s) k held0) (add_tkey k (s_keys s)),
-             [])
+             []).
+
+  Definition step (s : st) (a : act) : st * list push :=
+    match a with
+    | ASubscribe =>
+        if s_sub s then (s, [])
+        else (mkSt (s_ent s) (s_polls s) (s_bc s) (fun _ => None) true (fun _ => None) [], [])
+    | ATrack k fresh =>
+        track_with s k (if fresh then 0 else match s_held s k with Some h => h | None => 0 end)
+                   (if fresh then None else s_held s k)
+    | ATrackV k cv => track_with s k cv (s_held s k)
     | AUntrack k others =>
         match s_conn s k with
         | None => (s, [])
